@@ -174,7 +174,11 @@ void conn_run(const Plan *p, const CredSet *cs, HonestOut *out,
 
 	g_sim.next_event = net_next_event;
 	g_sim.on_quiesce = quiesce_handler;
+#ifdef GMSIM_TSAN
+	g_sim.on_switch = NULL;      /* the monitors read both endpoints' TLS_CONNECT from whichever thread yields: not under TSan */
+#else
 	g_sim.on_switch = mon_on_switch;
+#endif
 	cl->task = sim_spawn("client", 0, ep_task, cl);
 	sv->task = sim_spawn("server", 1, ep_task, sv);
 	/* in the -finstrument-functions builds the two endpoint tasks are also preempted
@@ -184,7 +188,9 @@ void conn_run(const Plan *p, const CredSet *cs, HonestOut *out,
 	g_preempt_on = p->preempt_mean > 0;
 	sim_run();
 	g_preempt_on = 0;
+#ifndef GMSIM_TSAN
 	mon_on_switch(-1);
+#endif
 
 	Endpoint *e[2] = { cl, sv };
 	for (int s = 0; s < 2; s++) {
